@@ -300,13 +300,30 @@ func checkReactiveRegistration(r *Reporter, p *Prog, pkg, typ string) {
 		return
 	}
 	var bad []string
-	nSteps := 0
+	nSteps, nSnapshot := 0, 0
 	AnalyzeLocks(fd.Body, LockSet{}, &FlowOpts{Info: info}, func(n ast.Node, stack []ast.Node, held LockSet) {
 		cl, ok := n.(*ast.CallExpr)
 		if !ok {
 			return
 		}
 		k := exprKey(cl.Fun)
+		// the initial snapshot handed to the new subscriber is read inside the registration section
+		if se, isSel := ast.Unparen(cl.Fun).(*ast.SelectorExpr); isSel {
+			if id, isId := ast.Unparen(se.X).(*ast.Ident); isId && info.Uses[id] == recvObj {
+				inLit := false
+				for _, a := range stack {
+					if _, ok := a.(*ast.FuncLit); ok {
+						inLit = true
+					}
+				}
+				if sel := info.Selections[se]; sel != nil && sel.Kind() == types.MethodVal && !inLit {
+					nSnapshot++
+					if held[recvPath+"."+mutexName] < ModeW {
+						bad = append(bad, fmt.Sprintf("%s: the current state is read with %s outside the value mutex: a writer that completes between this snapshot and the registration is neither part of the initial state nor delivered as an update", p.posStr(cl.Pos()), k))
+					}
+				}
+			}
+		}
 		isPush := strings.HasSuffix(k, "Callbacks.PushBack")
 		x, isLockExec := reactiveCalleeIs(info, cl, "LockExecution")
 		if !(isPush || (isLockExec && objOfIdent(info, x) == cbVar)) {
@@ -328,7 +345,7 @@ func checkReactiveRegistration(r *Reporter, p *Prog, pkg, typ string) {
 	if len(bad) > 0 {
 		r.Fail("reg/hand-off", key, p.posStr(fd.Pos()), bad[0], bad...)
 	} else {
-		r.Pass("reg/hand-off", key, p.posStr(fd.Pos()), "callback pushed and execution-locked (tagged with the current update id) while the value mutex is held")
+		r.Pass("reg/hand-off", key, p.posStr(fd.Pos()), fmt.Sprintf("callback pushed and execution-locked (tagged with the current update id) while the value mutex is held; %d snapshot call(s) on the receiver inside the same section", nSnapshot))
 	}
 	// unsubscribe closure
 	var ret *ast.FuncLit
